@@ -232,3 +232,483 @@ Proof.
 Qed.
 
 End Step.
+
+(* ------------------------------------------------------------------------------------------ *)
+(* 2. fuel-free characterisation of [rw_evals] per constructor                                  *)
+(* ------------------------------------------------------------------------------------------ *)
+
+Section Evals.
+Variable e : env.
+
+Notation evals := (rw_evals e).
+
+Lemma evals_S t s l : evals t s l <-> exists f, sem_step e f (sem e f) t s = Ok l.
+Proof.
+  split.
+  - intros [[|f] H]; [discriminate|]. exists f. rewrite <- sem_S. exact H.
+  - intros [f H]. exists (S f). rewrite sem_S. exact H.
+Qed.
+
+Lemma evals_common t (lx : list st) zs :
+  Forall2 (fun a za => evals t a za) lx zs ->
+  exists F, forall f, (F <= f)%nat -> Forall2 (fun a za => sem e f t a = Ok za) lx zs.
+Proof.
+  induction 1 as [|a za lx zs [fa Ha] _ (F & IH)].
+  - exists 0%nat. intros; constructor.
+  - exists (Nat.max fa F). intros f Hf. constructor.
+    + apply (rw_sem_mono e fa); [lia | exact Ha].
+    + apply IH. lia.
+Qed.
+
+Lemma Forall2_impl' {A B} (R1 R2 : A -> B -> Prop) l l' :
+  (forall a b, R1 a b -> R2 a b) -> Forall2 R1 l l' -> Forall2 R2 l l'.
+Proof. intros H; induction 1; constructor; auto. Qed.
+
+(* leaves: the result does not depend on the fuel *)
+Definition leaf_result (t : node) (s : st) : option (list st) :=
+  match t with
+  | NChar k o c =>
+      Some (if (0 <? avail e o (pos s)) && char_test e k c (next_char e o (pos s))
+            then [with_pos s (pos s + dir o)] else [])
+  | NCharLoop k l o c m n => Some (sem_charloop e k l o c m n s)
+  | NMulti o str => Some (sem_multi e o str s)
+  | NRef o g => Some (sem_ref e o g s)
+  | NAnchor a => Some (if anchor_ok e a (pos s) then [s] else [])
+  | NNothing => Some []
+  | NEmpty => Some [s]
+  | NBump => Some [s]
+  | _ => None
+  end.
+
+Lemma sem_leaf t s r f : leaf_result t s = Some r -> sem e (S f) t s = Ok r.
+Proof. destruct t; simpl; intros H; inversion H; reflexivity. Qed.
+
+Lemma evals_leaf t s r l : leaf_result t s = Some r -> (evals t s l <-> l = r).
+Proof.
+  intros H. split.
+  - intros [[|f] Hf]; [discriminate|]. rewrite (sem_leaf _ _ _ _ H) in Hf. congruence.
+  - intros ->. exists 1%nat. apply sem_leaf, H.
+Qed.
+
+Lemma evals_concat_nil o s z : evals (NConcat o []) s z <-> z = [s].
+Proof.
+  split.
+  - intros [[|f] H]; [discriminate|]. rewrite sem_S in H. simpl in H. congruence.
+  - intros ->. exists 1%nat. reflexivity.
+Qed.
+
+Lemma evals_concat_cons o x l s z :
+  evals (NConcat o (x :: l)) s z <->
+  exists lx zs, evals x s lx /\ Forall2 (fun a za => evals (NConcat o l) a za) lx zs /\ z = concat zs.
+Proof.
+  split.
+  - intros [[|f] H]; [discriminate|]. rewrite sem_S in H. cbn [sem_step seq_sem] in H.
+    unfold bindr in H. apply rw_bind_ok in H as (lx & Hx & H).
+    apply bindl_ok in H as (zs & HF & ->).
+    exists lx, zs. split; [exists f; exact Hx|]. split; [|reflexivity].
+    eapply Forall2_impl'; [|exact HF]. intros a za Ha. exists (S f). rewrite sem_S. exact Ha.
+  - intros (lx & zs & [fx Hx] & HF & ->). apply evals_common in HF as (F & HF).
+    exists (S (S (Nat.max fx F))). rewrite sem_S. cbn [sem_step seq_sem].
+    rewrite (rw_sem_mono e fx (S (Nat.max fx F)) _ _ _ ltac:(lia) Hx). unfold bindr. cbn [bind].
+    apply bindl_ok. exists zs. split; [|reflexivity].
+    eapply Forall2_impl'; [|apply (HF (S (S (Nat.max fx F)))); lia].
+    intros a za Ha. cbv beta in Ha. rewrite sem_S in Ha. cbn [sem_step] in Ha.
+    exact Ha.
+Qed.
+
+Lemma evals_alt_nil o s z : evals (NAlternate o []) s z <-> z = [].
+Proof.
+  split.
+  - intros [[|f] H]; [discriminate|]. rewrite sem_S in H. simpl in H. congruence.
+  - intros ->. exists 1%nat. reflexivity.
+Qed.
+
+Lemma evals_alt_cons o x l s z :
+  evals (NAlternate o (x :: l)) s z <->
+  exists lx ly, evals x s lx /\ evals (NAlternate o l) s ly /\ z = lx ++ ly.
+Proof.
+  split.
+  - intros [[|f] H]; [discriminate|]. rewrite sem_S in H. cbn [sem_step alt_sem] in H.
+    unfold appr in H. apply rw_bind_ok in H as (lx & Hx & H). apply rw_bind_ok in H as (ly & Hy & H).
+    inversion H; subst. exists lx, ly. split; [exists f; exact Hx|]. split; [|reflexivity].
+    exists (S f). rewrite sem_S. exact Hy.
+  - intros (lx & ly & [fx Hx] & [fy Hy] & ->).
+    exists (S (Nat.max fx fy)). rewrite sem_S. cbn [sem_step alt_sem].
+    rewrite (rw_sem_mono e fx (Nat.max fx fy) _ _ _ ltac:(lia) Hx).
+    apply (rw_sem_mono e fy (S (Nat.max fx fy))) in Hy; [|lia]. rewrite sem_S in Hy. cbn [sem_step] in Hy.
+    unfold appr. cbn [bind]. rewrite Hy. reflexivity.
+Qed.
+
+Lemma evals_atomic r s z : evals (NAtomic r) s z <-> exists l, evals r s l /\ z = hd_list l.
+Proof.
+  split.
+  - intros [[|f] H]; [discriminate|]. rewrite sem_S in H. cbn [sem_step] in H.
+    apply first_only_ok in H as (l0 & H0 & ->). exists l0. split; [exists f; exact H0 | reflexivity].
+  - intros (l & [f H] & ->). exists (S f). rewrite sem_S. cbn [sem_step]. rewrite H. apply first_only_Ok.
+Qed.
+
+Lemma evals_group r s z : evals (NGroup r) s z <-> evals r s z.
+Proof.
+  split.
+  - intros [[|f] H]; [discriminate|]. rewrite sem_S in H. exists f. exact H.
+  - intros [f H]. exists (S f). rewrite sem_S. exact H.
+Qed.
+
+Lemma evals_poslook o r s z :
+  evals (NPosLook o r) s z <-> exists l, evals r s l /\ z = map (fun s' => with_pos s' (pos s)) (hd_list l).
+Proof.
+  split.
+  - intros [[|f] H]; [discriminate|]. rewrite sem_S in H. cbn [sem_step] in H.
+    apply rw_bind_ok in H as (l1 & H1 & H). apply first_only_ok in H1 as (l0 & H0 & ->).
+    inversion H; subst. exists l0. split; [exists f; exact H0 | reflexivity].
+  - intros (l & [f H] & ->). exists (S f). rewrite sem_S. cbn [sem_step]. rewrite H, first_only_Ok. reflexivity.
+Qed.
+
+Lemma evals_neglook o r s z :
+  evals (NNegLook o r) s z <-> exists l, evals r s l /\ z = match hd_list l with [] => [s] | _ => [] end.
+Proof.
+  split.
+  - intros [[|f] H]; [discriminate|]. rewrite sem_S in H. cbn [sem_step] in H.
+    apply rw_bind_ok in H as (l1 & H1 & H). inversion H; subst.
+    exists l1. split; [exists f; exact H1 | destruct l1; reflexivity].
+  - intros (l & [f H] & ->). exists (S f). rewrite sem_S. cbn [sem_step]. rewrite H. destruct l; reflexivity.
+Qed.
+
+Definition capture_close (g u : Z) (s s' : st) : list st :=
+  if u =? -1 then [{| pos := pos s'; caps := cap_push g (span (pos s) (pos s')) (caps s') |}]
+  else match cap_get u (caps s') with
+       | [] => []
+       | top :: _ =>
+           let c1 := cap_pop u (caps s') in
+           [{| pos := pos s';
+               caps := if g =? -1 then c1 else cap_push g (balance_span (pos s) (pos s') top) c1 |}]
+       end.
+
+Lemma bindl_pure {A B} (l : list A) (k : A -> list B) : bindl l (fun a => Ok (k a)) = Ok (flat_map k l).
+Proof. induction l as [|a l IH]; simpl; [reflexivity|]. rewrite IH. reflexivity. Qed.
+
+Lemma evals_capture o g u r s z :
+  evals (NCapture o g u r) s z <-> exists l, evals r s l /\ z = flat_map (capture_close g u s) l.
+Proof.
+  split.
+  - intros [[|f] H]; [discriminate|]. rewrite sem_S in H. cbn [sem_step] in H.
+    assert (H' : bindr (sem e f r s) (fun s' => Ok (capture_close g u s s')) = Ok z).
+    { unfold capture_close. destruct (u =? -1); [exact H|].
+      unfold bindr in *. apply rw_bind_ok in H as (l & Hl & H). rewrite Hl. cbn [bind].
+      rewrite <- H. clear. induction l as [|a l IH]; simpl; [reflexivity|]. rewrite IH.
+      destruct (cap_get u (caps a)); reflexivity. }
+    unfold bindr in H'. apply rw_bind_ok in H' as (l & Hl & H'). rewrite bindl_pure in H'. inversion H'; subst.
+    exists l. split; [exists f; exact Hl | reflexivity].
+  - intros (l & [f H] & ->). exists (S f). rewrite sem_S. cbn [sem_step]. rewrite H.
+    unfold bindr, capture_close. cbn [bind]. destruct (u =? -1).
+    + apply bindl_pure.
+    + rewrite <- (bindl_pure l). clear. induction l as [|a l IH]; simpl; [reflexivity|]. rewrite IH.
+      destruct (cap_get u (caps a)); reflexivity.
+Qed.
+
+Lemma evals_backref_cond o g y n s z :
+  evals (NBackRefCond o g y n) s z <->
+  (if is_matched g (caps s) then evals y s z
+   else match n with Some n' => evals n' s z | None => z = [s] end).
+Proof.
+  split.
+  - intros [[|f] H]; [discriminate|]. rewrite sem_S in H. cbn [sem_step] in H.
+    destruct (is_matched g (caps s)); [exists f; exact H|].
+    destruct n; [exists f; exact H | congruence].
+  - intros H. destruct (is_matched g (caps s)) eqn:E.
+    + destruct H as [f H]. exists (S f). rewrite sem_S. cbn [sem_step]. rewrite E. exact H.
+    + destruct n as [n'|].
+      * destruct H as [f H]. exists (S f). rewrite sem_S. cbn [sem_step]. rewrite E. exact H.
+      * subst. exists 1%nat. rewrite sem_S. cbn [sem_step]. rewrite E. reflexivity.
+Qed.
+
+Lemma evals_expr_cond o c y n s z :
+  evals (NExprCond o c y n) s z <->
+  exists lc, evals c s lc /\
+    match lc with
+    | s' :: _ => evals y (with_pos s' (pos s)) z
+    | [] => match n with Some n' => evals n' s z | None => z = [s] end
+    end.
+Proof.
+  split.
+  - intros [[|f] H]; [discriminate|]. rewrite sem_S in H. cbn [sem_step] in H.
+    apply rw_bind_ok in H as (l1 & H1 & H). apply first_only_ok in H1 as (lc & Hc & ->).
+    exists lc. split; [exists f; exact Hc|].
+    destruct lc as [|s' lc]; cbn [hd_list] in H.
+    + destruct n; [exists f; exact H | congruence].
+    + exists f. exact H.
+  - intros (lc & [fc Hc] & H).
+    assert (Hgo : forall f, (fc <= f)%nat ->
+              sem e (S f) (NExprCond o c y n) s =
+              match lc with
+              | s' :: _ => sem e f y (with_pos s' (pos s))
+              | [] => match n with Some n' => sem e f n' s | None => Ok [s] end
+              end).
+    { intros f Hf. rewrite sem_S. cbn [sem_step].
+      rewrite (rw_sem_mono e fc f _ _ _ Hf Hc), first_only_Ok. destruct lc; reflexivity. }
+    destruct lc as [|s' lc].
+    + destruct n as [n'|].
+      * destruct H as [f H]. exists (S (Nat.max fc f)). rewrite Hgo by lia.
+        apply (rw_sem_mono e f); [lia | exact H].
+      * subst. exists (S fc). rewrite Hgo by lia. reflexivity.
+    + destruct H as [f H]. exists (S (Nat.max fc f)). rewrite Hgo by lia.
+      apply (rw_sem_mono e f); [lia | exact H].
+Qed.
+
+End Evals.
+
+(* ------------------------------------------------------------------------------------------ *)
+(* 3. the relations: order structure, strong implies denotational                               *)
+(* ------------------------------------------------------------------------------------------ *)
+
+Section Basics.
+Variable e : env.
+
+Lemma rw_refines_refl t : rw_refines e t t.
+Proof. intros s l H; exact H. Qed.
+Lemma rw_refines_trans a b c : rw_refines e a b -> rw_refines e b c -> rw_refines e a c.
+Proof. intros H1 H2 s l H. auto. Qed.
+Lemma rw_hrefines_refl t : rw_hrefines e t t.
+Proof. intros s l H; exists l; split; [exact H | reflexivity]. Qed.
+Lemma rw_hrefines_trans a b c : rw_hrefines e a b -> rw_hrefines e b c -> rw_hrefines e a c.
+Proof.
+  intros H1 H2 s l H. apply H1 in H as (l1 & H & E1). apply H2 in H as (l2 & H & E2).
+  exists l2. split; [exact H | congruence].
+Qed.
+Lemma rw_refines_hrefines a b : rw_refines e a b -> rw_hrefines e a b.
+Proof. intros H s l Hl. exists l. split; [apply H, Hl | reflexivity]. Qed.
+
+Lemma rw_eq_refl t : rw_eq e t t.
+Proof. split; apply rw_refines_refl. Qed.
+Lemma rw_eq_sym a b : rw_eq e a b -> rw_eq e b a.
+Proof. intros [H1 H2]; split; assumption. Qed.
+Lemma rw_eq_trans a b c : rw_eq e a b -> rw_eq e b c -> rw_eq e a c.
+Proof. intros [H1 H2] [H3 H4]; split; eapply rw_refines_trans; eassumption. Qed.
+Lemma rw_heq_refl t : rw_heq e t t.
+Proof. split; apply rw_hrefines_refl. Qed.
+Lemma rw_heq_sym a b : rw_heq e a b -> rw_heq e b a.
+Proof. intros [H1 H2]; split; assumption. Qed.
+Lemma rw_heq_trans a b c : rw_heq e a b -> rw_heq e b c -> rw_heq e a c.
+Proof. intros [H1 H2] [H3 H4]; split; eapply rw_hrefines_trans; eassumption. Qed.
+Lemma rw_eq_heq a b : rw_eq e a b -> rw_heq e a b.
+Proof. intros [H1 H2]; split; apply rw_refines_hrefines; assumption. Qed.
+
+Lemma rw_eqs_refl t : rw_eqs e t t.
+Proof. intros f s; reflexivity. Qed.
+Lemma rw_eqs_sym a b : rw_eqs e a b -> rw_eqs e b a.
+Proof. intros H f s; symmetry; apply H. Qed.
+Lemma rw_eqs_trans a b c : rw_eqs e a b -> rw_eqs e b c -> rw_eqs e a c.
+Proof. intros H1 H2 f s; rewrite H1; apply H2. Qed.
+Lemma rw_heqs_refl t : rw_heqs e t t.
+Proof. intros f s; reflexivity. Qed.
+Lemma rw_heqs_sym a b : rw_heqs e a b -> rw_heqs e b a.
+Proof. intros H f s; symmetry; apply H. Qed.
+Lemma rw_heqs_trans a b c : rw_heqs e a b -> rw_heqs e b c -> rw_heqs e a c.
+Proof. intros H1 H2 f s; rewrite H1; apply H2. Qed.
+Lemma rw_eqs_heqs a b : rw_eqs e a b -> rw_heqs e a b.
+Proof. intros H f s; rewrite H; reflexivity. Qed.
+
+Lemma rw_eqs_eq a b : rw_eqs e a b -> rw_eq e a b.
+Proof. intros H; split; intros s l [f Hf]; exists f; [rewrite <- H | rewrite H]; exact Hf. Qed.
+
+Lemma rw_heqs_hrefines a b : rw_heqs e a b -> rw_hrefines e a b.
+Proof.
+  intros H s l [f Hf]. specialize (H f s). rewrite Hf, first_only_Ok in H. symmetry in H.
+  apply first_only_ok in H as (l0 & H0 & E). exists l0. split; [exists f; exact H0 | exact E].
+Qed.
+Lemma rw_heqs_heq a b : rw_heqs e a b -> rw_heq e a b.
+Proof. intros H; split; apply rw_heqs_hrefines; [exact H | apply rw_heqs_sym, H]. Qed.
+
+(* whenever both trees evaluate, related trees give the same (first) result *)
+Lemma rw_hrefines_agree a b s la lb :
+  rw_hrefines e a b -> rw_evals e a s la -> rw_evals e b s lb -> hd_list la = hd_list lb.
+Proof.
+  intros H Ha Hb. apply H in Ha as (l' & Hl' & E). rewrite (rw_evals_det e _ _ _ _ Hb Hl'). exact E.
+Qed.
+
+End Basics.
+
+(* ------------------------------------------------------------------------------------------ *)
+(* 4. R1 — a single-character loop in atomic position (makeLoopAtomic, tree.go:710-740)          *)
+(* ------------------------------------------------------------------------------------------ *)
+
+Section CharLoop.
+Variable e : env.
+
+Lemma run_len_bounds k c o n p : 0 <= run_len e k c o n p <= Z.of_nat n.
+Proof.
+  revert p. induction n as [|n IH]; intros p; cbn [run_len]; [lia|].
+  destruct ((0 <? avail e o p) && char_test e k c (next_char e o p)); [specialize (IH (p + dir o))|]; lia.
+Qed.
+
+Lemma run_len_min k c o a b p :
+  run_len e k c o (Nat.min a b) p = Z.min (run_len e k c o a p) (Z.of_nat b).
+Proof.
+  revert b p. induction a as [|a IH]; intros b p.
+  - cbn [Nat.min run_len]. lia.
+  - destruct b as [|b].
+    + cbn [Nat.min]. pose proof (run_len_bounds k c o (S a) p). cbn [run_len] in *. lia.
+    + cbn [Nat.min run_len].
+      destruct ((0 <? avail e o p) && char_test e k c (next_char e o p)); [rewrite IH|]; lia.
+Qed.
+
+Lemma count_down_head r m : m <= r -> exists tl, count_down r m = r :: tl.
+Proof.
+  intros H. unfold count_down. assert (r <? m = false) as -> by lia.
+  destruct (Z.to_nat (r - m + 1)) as [|k] eqn:E; [lia|]. simpl. eauto.
+Qed.
+
+Lemma count_up_head m r : m <= r -> exists tl, count_up m r = m :: tl.
+Proof.
+  intros H. unfold count_up. assert (r <? m = false) as -> by lia.
+  destruct (Z.to_nat (r - m + 1)) as [|k] eqn:E; [lia|]. simpl. eauto.
+Qed.
+
+Lemma with_pos_same (s : st) : with_pos s (pos s) = s.
+Proof. destruct s; reflexivity. Qed.
+
+Ltac leaf_fuel f s := intros f s; destruct f as [|f]; [reflexivity|]; rewrite !sem_S; cbn [sem_step].
+
+(* R1, greedy: the first result of a greedy loop is the maximal run.  No side condition. *)
+Theorem end_backtracking_charloop k o c m n :
+  rw_heqs e (NCharLoop k LGreedy o c m n) (NCharLoop k LAtomic o c m n).
+Proof.
+  leaf_fuel f s. unfold sem_charloop. cbv zeta.
+  set (r := run_len e k c o _ (pos s)). destruct (r <? m) eqn:E; [reflexivity|].
+  destruct (count_down_head r m ltac:(lia)) as [tl ->]. reflexivity.
+Qed.
+
+(* R1, lazy: makeLoopAtomic turns a lazy loop into the repeater of its minimum (n := m). *)
+Theorem end_backtracking_charloop_lazy k o c m n : 0 <= m <= n -> m < INF ->
+  rw_heqs e (NCharLoop k LLazy o c m n) (NCharLoop k LAtomic o c m m).
+Proof.
+  intros Hmn Hm. leaf_fuel f s. unfold sem_charloop. cbv zeta.
+  set (A := avail e o (pos s)).
+  assert (m =? INF = false) as -> by lia.
+  set (cap1 := if n =? INF then A else Z.min n A).
+  assert (Hcap : Z.to_nat (Z.min m A) = Nat.min (Z.to_nat cap1) (Z.to_nat m)).
+  { unfold cap1. destruct (n =? INF); lia. }
+  rewrite Hcap, run_len_min.
+  set (r := run_len e k c o (Z.to_nat cap1) (pos s)).
+  pose proof (run_len_bounds k c o (Z.to_nat cap1) (pos s)) as Hr. fold r in Hr.
+  replace (Z.of_nat (Z.to_nat m)) with m by lia.
+  destruct (r <? m) eqn:E.
+  - assert (Z.min r m <? m = true) as -> by lia. reflexivity.
+  - assert (Z.min r m <? m = false) as -> by lia.
+    destruct (count_up_head m r ltac:(lia)) as [tl ->]. cbn [map first_only bind].
+    replace (Z.min r m) with m by lia. reflexivity.
+Qed.
+
+(* R1, lazy with minimum 0: makeLoopAtomic produces Empty (tree.go:724-729). *)
+Theorem end_backtracking_charloop_lazy0 k o c n :
+  rw_heqs e (NCharLoop k LLazy o c 0 n) NEmpty.
+Proof.
+  leaf_fuel f s. unfold sem_charloop. cbv zeta.
+  set (r := run_len e k c o _ (pos s)).
+  pose proof (run_len_bounds k c o (Z.to_nat (if n =? INF then avail e o (pos s) else Z.min n (avail e o (pos s)))) (pos s)) as Hr.
+  fold r in Hr. assert (r <? 0 = false) as -> by lia.
+  destruct (count_up_head 0 r ltac:(lia)) as [tl ->]. cbn [map first_only bind].
+  replace (pos s + dir o * 0) with (pos s) by lia. rewrite with_pos_same. reflexivity.
+Qed.
+
+(* a One repeater {m,m} and the Multi of m copies (tree.go:730-738); under IgnoreCase a Multi
+   lower-cases the text and a One does not, so the rune must be one the lower-casing leaves alone *)
+Definition ci_neutral (o c : Z) : Prop := is_ci o = true -> forall x, (c =? lower e x) = (x =? c).
+
+Lemma run_len_full k c o n p :
+  run_len e k c o n p = Z.of_nat n <->
+  forall i, 0 <= i < Z.of_nat n ->
+    (0 <? avail e o (p + dir o * i)) && char_test e k c (next_char e o (p + dir o * i)) = true.
+Proof.
+  revert p. induction n as [|n IH]; intros p.
+  - cbn [run_len]. split; [intros _ i Hi; lia | reflexivity].
+  - cbn [run_len]. pose proof (run_len_bounds k c o n (p + dir o)) as Hb. split.
+    + intros H i Hi.
+      destruct ((0 <? avail e o p) && char_test e k c (next_char e o p)) eqn:E; [|lia].
+      destruct (Z.eq_dec i 0) as [->|Hne].
+      * replace (p + dir o * 0) with p by lia. exact E.
+      * assert (H' : run_len e k c o n (p + dir o) = Z.of_nat n) by lia.
+        rewrite IH in H'. specialize (H' (i - 1) ltac:(lia)).
+        replace (p + dir o + dir o * (i - 1)) with (p + dir o * i) in H' by lia. exact H'.
+    + intros H. pose proof (H 0 ltac:(lia)) as H0. replace (p + dir o * 0) with p in H0 by lia.
+      rewrite H0. assert (H' : run_len e k c o n (p + dir o) = Z.of_nat n).
+      { apply IH. intros i Hi. specialize (H (i + 1) ltac:(lia)).
+        replace (p + dir o * (i + 1)) with (p + dir o + dir o * i) in H by lia. exact H. }
+      lia.
+Qed.
+
+Lemma str_match_repeat ci c n p :
+  str_match_at e ci (repeat c n) p = true <->
+  forall i, 0 <= i < Z.of_nat n -> (c =? (if ci then lower e (char_at e (p + i)) else char_at e (p + i))) = true.
+Proof.
+  revert p. induction n as [|n IH]; intros p.
+  - cbn. split; [intros _ i Hi; lia | reflexivity].
+  - cbn [repeat str_match_at]. rewrite andb_true_iff, IH. split.
+    + intros [H0 H] i Hi. destruct (Z.eq_dec i 0) as [->|Hne].
+      * replace (p + 0) with p by lia. exact H0.
+      * specialize (H (i - 1) ltac:(lia)). replace (p + 1 + (i - 1)) with (p + i) in H by lia. exact H.
+    + intros H. split.
+      * specialize (H 0 ltac:(lia)). replace (p + 0) with p in H by lia. exact H.
+      * intros i Hi. specialize (H (i + 1) ltac:(lia)). replace (p + (i + 1)) with (p + 1 + i) in H by lia. exact H.
+Qed.
+
+Lemma zlen_repeat (c : Z) n : zlen (repeat c n) = Z.of_nat n.
+Proof. unfold zlen. rewrite repeat_length. reflexivity. Qed.
+
+Theorem charloop_repeater_multi o c m : 1 <= m -> m < INF -> ci_neutral o c ->
+  rw_eqs e (NCharLoop COne LAtomic o c m m) (NMulti o (repeat c (Z.to_nat m))).
+Proof.
+  intros Hm Hinf Hci. leaf_fuel f s. f_equal. unfold sem_charloop, sem_multi. cbv zeta.
+  assert (m =? INF = false) as -> by lia. rewrite zlen_repeat.
+  replace (Z.of_nat (Z.to_nat m)) with m by lia.
+  set (A := avail e o (pos s)). set (p := pos s).
+  destruct (A <? m) eqn:EA.
+  - pose proof (run_len_bounds COne c o (Z.to_nat (Z.min m A)) p) as Hb.
+    assert (run_len e COne c o (Z.to_nat (Z.min m A)) p <? m = true) as -> by lia. reflexivity.
+  - replace (Z.min m A) with m by lia.
+    set (start := if is_rtl o then p - m else p).
+    assert (Hiff : run_len e COne c o (Z.to_nat m) p = Z.of_nat (Z.to_nat m) <->
+                   str_match_at e (is_ci o) (repeat c (Z.to_nat m)) start = true).
+    { rewrite run_len_full, str_match_repeat.
+      assert (Hav : forall i, 0 <= i < Z.of_nat (Z.to_nat m) -> (0 <? avail e o (p + dir o * i)) = true).
+      { intros i Hi. unfold A, avail, dir in *. fold p in EA. destruct (is_rtl o); lia. }
+      assert (Htest : forall x, (c =? (if is_ci o then lower e x else x)) = char_test e COne c x).
+      { intros x. cbn [char_test]. destruct (is_ci o) eqn:Eci; [apply Hci; exact Eci | apply Z.eqb_sym]. }
+      unfold start, next_char, dir in Hav |- *. destruct (is_rtl o).
+      - split; intros H i Hi.
+        + specialize (H (Z.of_nat (Z.to_nat m) - 1 - i) ltac:(lia)). rewrite Hav in H by lia. cbn [andb] in H.
+          rewrite Htest. replace (p - m + i) with (p + -1 * (Z.of_nat (Z.to_nat m) - 1 - i) - 1) by lia. exact H.
+        + rewrite (Hav i Hi). cbn [andb]. specialize (H (Z.of_nat (Z.to_nat m) - 1 - i) ltac:(lia)).
+          rewrite Htest in H. replace (p - m + (Z.of_nat (Z.to_nat m) - 1 - i)) with (p + -1 * i - 1) in H by lia. exact H.
+      - split; intros H i Hi.
+        + specialize (H i Hi). rewrite (Hav i Hi) in H. cbn [andb] in H. rewrite Htest.
+          replace (p + i) with (p + 1 * i) by lia. exact H.
+        + rewrite (Hav i Hi). cbn [andb]. specialize (H i Hi). rewrite Htest in H.
+          replace (p + 1 * i) with (p + i) by lia. exact H. }
+    pose proof (run_len_bounds COne c o (Z.to_nat m) p) as Hb.
+    destruct (str_match_at e (is_ci o) (repeat c (Z.to_nat m)) start) eqn:ES.
+    + assert (Hr : run_len e COne c o (Z.to_nat m) p = m) by (apply proj2 in Hiff; specialize (Hiff eq_refl); lia).
+      rewrite Hr. assert (m <? m = false) as -> by lia. reflexivity.
+    + assert (Hr : run_len e COne c o (Z.to_nat m) p <> Z.of_nat (Z.to_nat m)).
+      { intros H. apply Hiff in H. discriminate. }
+      assert (run_len e COne c o (Z.to_nat m) p <? m = true) as -> by lia. reflexivity.
+Qed.
+
+(* R1 as the code applies it: whatever makeLoopAtomic produces has the same first result *)
+Theorem make_loop_atomic_heqs k l o c m n : loop_atomic_ok e k l o c m n ->
+  rw_heqs e (NCharLoop k l o c m n) (make_loop_atomic (NCharLoop k l o c m n)).
+Proof.
+  destruct l; cbn [loop_atomic_ok make_loop_atomic].
+  - intros _. apply end_backtracking_charloop.
+  - intros (Hmn & Hinf & Hci). destruct (m =? 0) eqn:E0.
+    + assert (m = 0) as -> by lia. apply end_backtracking_charloop_lazy0.
+    + assert (Hgen : rw_heqs e (NCharLoop k LLazy o c m n) (NCharLoop k LAtomic o c m m))
+        by (apply end_backtracking_charloop_lazy; assumption).
+      destruct k; try exact Hgen.
+      destruct ((2 <=? m) && (m <=? MULTI_VS_REPEATER_LIMIT)) eqn:E2; [|exact Hgen].
+      eapply rw_heqs_trans; [exact Hgen|]. apply rw_eqs_heqs, charloop_repeater_multi; try lia.
+      intros Eci. apply Hci; [reflexivity | exact Eci].
+  - intros _. apply rw_heqs_refl.
+Qed.
+
+End CharLoop.
